@@ -8,6 +8,7 @@ import (
 	"sync"
 
 	"reduction.dev/reduction/dkv/kv"
+	"reduction.dev/reduction/util/verifhook"
 )
 
 // This list's metaphor is a thread-safe queue, however the slices of tables is
@@ -76,6 +77,7 @@ func (l *List) Get(key []byte) (kv.Entry, error) {
 	// Search from the active (newest) table to the oldest sealed table so that
 	// the latest write wins.
 	for _, t := range slices.Backward(l.tablesSnap()) {
+		verifhook.At("dkv.memlist.get", l)
 		v, err := t.Get(key)
 		if err != nil {
 			if err == kv.ErrNotFound {
